@@ -154,7 +154,7 @@ theorem getRaw_ss_spec (cfg : Cfg) (sgen : Nat → Bytes) (hsgen : ∀ n, sgen n
 
 /-- what the method switch leaves behind, session back-end without the middleware -/
 def DecSS (cfg : Cfg) (q : Req) (st : St) (c1 : Ctx) : Decision → Prop
-  | .reject _ => isSafe q.method = false ∧ c1.st.sess = st.sess
+  | .reject _ _ => isSafe q.method = false ∧ c1.st.sess = st.sess
   | .proceed tok =>
     if isSafe q.method then
       c1.st.sess = st.sess ∧ c1.fs = false ∧ c1.fd = false ∧ c1.sc = none ∧
@@ -200,19 +200,19 @@ theorem decide_ss (cfg : Cfg) (sgen : Nat → Bytes) (hsgen : ∀ n, sgen n ≠ 
         exact absurd rfl htok
   · simp only [hs, Bool.false_eq_true, if_false] at hd
     simp only [Bool.not_eq_true] at hs
-    have hrej : ∀ (c : Ctx) (e : Bool), c.st.sess = st.sess → DecSS cfg q st c (.reject e) := by
-      intro c e h; exact ⟨hs, h⟩
+    have hrej : ∀ (c : Ctx) (e : Bool) (er : Err), c.st.sess = st.sess → DecSS cfg q st c (.reject e er) := by
+      intro c e er h; exact ⟨hs, h⟩
     cases hg : originGate cfg q
     · simp only [hg, Bool.not_false, if_true] at hd
       cases hd
-      exact ⟨rfl, rfl, rfl, rfl, fun R h => h, hrej _ _ rfl⟩
+      exact ⟨rfl, rfl, rfl, rfl, fun R h => h, hrej _ _ _ rfl⟩
     · simp only [hg, Bool.not_true, Bool.false_eq_true, if_false] at hd
       cases he : extract cfg.ext q with
       | none =>
         rw [he] at hd
         simp only at hd
         cases hd
-        exact ⟨rfl, rfl, rfl, rfl, fun R h => h, hrej _ _ rfl⟩
+        exact ⟨rfl, rfl, rfl, rfl, fun R h => h, hrej _ _ _ rfl⟩
       | some t =>
         rw [he] at hd
         simp only at hd
@@ -227,13 +227,13 @@ theorem decide_ss (cfg : Cfg) (sgen : Nat → Bytes) (hsgen : ∀ n, sgen n ≠ 
           | none =>
             simp only at hd
             cases hd
-            exact ⟨h2, h3, h4, h5, hbd, hrej _ _ h1⟩
+            exact ⟨h2, h3, h4, h5, hbd, hrej _ _ _ h1⟩
           | some ok =>
             cases ok with
             | false =>
               simp only at hd
               cases hd
-              exact ⟨h2, h3, h4, h5, hbd, hrej _ _ h1⟩
+              exact ⟨h2, h3, h4, h5, hbd, hrej _ _ _ h1⟩
             | true =>
               simp only at hd
               obtain ⟨R, d0, hB, hl, hle, hfg, hRsid⟩ := hok rfl
@@ -251,7 +251,7 @@ theorem decide_ss (cfg : Cfg) (sgen : Nat → Bytes) (hsgen : ∀ n, sgen n ≠ 
                   cases hd
                   obtain ⟨gs, _, gb, _⟩ := gerr rfl
                   exact ⟨g1.trans h2, g2.trans h3, g3.trans h4, g4.trans h5, fun R h => gb R (hbd R h),
-                    hrej _ _ (gs.trans h1)⟩
+                    hrej _ _ _ (gs.trans h1)⟩
                 | false =>
                   simp only at hd
                   cases hd
@@ -272,7 +272,7 @@ theorem decide_ss (cfg : Cfg) (sgen : Nat → Bytes) (hsgen : ∀ n, sgen n ≠ 
                 exact ⟨hg, he, hcgfg, h7, h8, hfg, R, d0, hB, hl, hle, hRsc, trivial, h1, h6⟩
         · simp only [ne_eq, htc, not_false_eq_true, if_true] at hd
           cases hd
-          exact ⟨rfl, rfl, rfl, rfl, fun R h => h, hrej _ _ rfl⟩
+          exact ⟨rfl, rfl, rfl, rfl, fun R h => h, hrej _ _ _ rfl⟩
 
 /-- the ways `finishTail` can end without the session middleware -/
 inductive TailSS (cfg : Cfg) (q : Req) (c : Ctx) (token : Bytes) (c2 : Ctx) (r2 : Resp) : Prop
@@ -399,11 +399,11 @@ theorem sim_ss (raw : List Bytes) (cfg : Cfg)
     (hbuild : buildLoop raw [] [] = some (cfg.origins, cfg.subs))
     (gen sgen : Nat → Bytes) (hgen : ∀ n, gen n ≠ []) (hinj : Function.Injective gen)
     (hsgen : ∀ n, sgen n ≠ []) (hpos : 0 < cfg.idle) (hb : cfg.backend = .sessStore)
-    (st : St) (s : SpecSt) (q : Req) (hwo : q.ourl.wf) (hwr : q.rurl.wf)
+    (st : St) (s : SpecSt) (q : Req)
     (hnow : s.now = st.now) (hI : IssuedOK gen st.ntok s.issued)
     (hS : SessOK gen cfg.idle st.ntok st.now st.sess s.live) (hN : keysNodup st.sess)
-    (st' : St) (r : Resp) (hh : handle cfg gen sgen st q = (st', r)) :
-    ∃ s', specReq (specConfig cfg.backend cfg.ext cfg.single cfg.idle raw) s q (obsOf cfg st' r) = .ok s' ∧
+    (st' : St) (r : Resp) (hh : handleCore cfg gen sgen st q = (st', r)) :
+    ∃ s', specReqCore (specConfig cfg.backend cfg.ext cfg.single cfg.idle raw) s q (obsOf cfg st' r) = .ok s' ∧
       s'.now = st'.now ∧ IssuedOK gen st'.ntok s'.issued ∧
       SessOK gen cfg.idle st'.ntok st'.now st'.sess s'.live ∧ keysNodup st'.sess := by
   have hbs : cfg.backend ≠ .storage := by rw [hb]; decide
@@ -419,8 +419,8 @@ theorem sim_ss (raw : List Bytes) (cfg : Cfg)
     intro slot h1 h2
     exact hbd1 q.sc ⟨rfl, h1, slot, h2⟩
   cases d with
-  | reject e =>
-    rw [handle_reject cfg gen sgen st q c1 e (by rw [hc0]; exact hd), hce] at hh
+  | reject e er =>
+    rw [handle_reject cfg gen sgen st q c1 e er (by rw [hc0]; exact hd), hce] at hh
     cases hh
     obtain ⟨hunsafe, hsess⟩ := hdec
     have hI' : IssuedOK gen c1.st.ntok (s.issued ++ c1.gens) := by
@@ -491,7 +491,7 @@ theorem sim_ss (raw : List Bytes) (cfg : Cfg)
             ∃ R d0, Bound q c1 R ∧ lookup st.sess R = some (some ⟨token, d0⟩)) ∨
          (c1'.gens = [token] ∧ c1'.st.ntok = st.ntok + 1 ∧ token = gen st.ntok)) →
         (cfg.single = true → isSafe q.method = false → c1'.gens = [token]) →
-        ∃ s', specReq (specConfig cfg.backend cfg.ext cfg.single cfg.idle raw) s q
+        ∃ s', specReqCore (specConfig cfg.backend cfg.ext cfg.single cfg.idle raw) s q
             (obsOf cfg c2.st (assemble c2 r2)) = .ok s' ∧
           s'.now = c2.st.now ∧ IssuedOK gen c2.st.ntok s'.issued ∧
           SessOK gen cfg.idle c2.st.ntok c2.st.now c2.st.sess s'.live ∧ keysNodup c2.st.sess by
@@ -557,7 +557,7 @@ theorem sim_ss (raw : List Bytes) (cfg : Cfg)
                 { s with issued := s.issued ++ o.gens } o live0))
           else rejectClause o live0) = .ok live2 →
         SessOK gen cfg.idle c1'.st.ntok st.now c2.st.sess live2 →
-        ∃ s', specReq (specConfig cfg.backend cfg.ext cfg.single cfg.idle raw) s q o = .ok s' ∧
+        ∃ s', specReqCore (specConfig cfg.backend cfg.ext cfg.single cfg.idle raw) s q o = .ok s' ∧
           s'.now = c2.st.now ∧ IssuedOK gen c2.st.ntok s'.issued ∧
           SessOK gen cfg.idle c2.st.ntok c2.st.now c2.st.sess s'.live ∧ keysNodup c2.st.sess := by
       intro live0 live2 h1 h2 h3
@@ -584,7 +584,7 @@ theorem sim_ss (raw : List Bytes) (cfg : Cfg)
           obtain ⟨_, _, _, l, hll, _, hh⟩ := hS q.sc q.ck d0 hheld
           unfold heldBy
           simp only [hll, hh, decide_true]
-        have horig := gate_sound raw cfg hbuild q hwo hwr hgate
+        have horig := gate_sound raw cfg hbuild q hgate
         have hacc : acceptedToken (specConfig cfg.backend cfg.ext cfg.single cfg.idle raw)
             { s with issued := s.issued ++ o.gens } q = some q.ck := by
           refine accepted_of (specConfig cfg.backend cfg.ext cfg.single cfg.idle raw)
